@@ -170,7 +170,15 @@ func (ms *readWriteSegment) Append(offset int64, data []byte) error {
 
 func (ms *readWriteSegment) Flush() error {
 	mark := ms.verifFlushMark()
-	err := ms.txnMappedFile.Flush()
+	ms.RLock()
+	if ms.closed {
+		// The segment was already flushed when it was rolled over
+		ms.RUnlock()
+		return nil
+	}
+	mappedFile := ms.txnMappedFile
+	ms.RUnlock()
+	err := mappedFile.Flush()
 	if err == nil {
 		ms.verifEventFlushed(mark)
 	}
